@@ -338,6 +338,20 @@ func (x *fnv) evalUnary(s *State, e *ast.UnaryExpr) Value {
 				return Value{T: x.typeOf(e), Term: s.vars[o].Term}
 			}
 		}
+		// &s[i]: an interior pointer into a slice cell. It is represented by an injective address term;
+		// loads and stores through it are not connected to the slice cell (functions that need that are
+		// given trusted contracts), so it may only be passed on.
+		if ix, ok := ast.Unparen(e.X).(*ast.IndexExpr); ok {
+			if st, ok := x.typeOf(ix.X).Underlying().(*types.Slice); ok {
+				b := x.eval(s, ix.X)
+				i := x.eval(s, ix.Index)
+				x.safe(s, "index", c.And(c.Le(c.Int(0), i.Term), c.Lt(i.Term, b.Sl.Len)), e.Pos())
+				a := c.App("elemaddr_"+typeStr(st.Elem()), SInt, b.Sl.Arr, c.Add(b.Sl.Off, i.Term))
+				s.Assume(c.Gt(a, c.Int(0)))
+				x.assumeNote("interior pointers (&s[i]) are opaque addresses: accesses through them are not tracked")
+				return Value{T: x.typeOf(e), Term: a}
+			}
+		}
 		panic(unsupported("address-of %s", types.ExprString(e.X)))
 	case token.NOT:
 		v := x.eval(s, e.X)
